@@ -1,0 +1,9 @@
+//go:build !verif
+
+package vm
+
+import "github.com/risor-io/risor/op"
+
+// verifStep is a verification hook. It is empty (and inlined away) unless the
+// package is built with -tags verif.
+func (vm *VirtualMachine) verifStep(opcode op.Code) {}
